@@ -7,6 +7,7 @@ import (
 	"net/http"
 	"sort"
 	"strings"
+	"sync"
 
 	"github.com/buildbuildio/pebbles/planner"
 	"github.com/buildbuildio/pebbles/queryer"
@@ -83,7 +84,12 @@ func vVarsFor(op *ast.OperationDefinition, given map[string]interface{}) map[str
 	return vars
 }
 
+// the fake services are one linearisable server model: concurrent calls are served one at a time
+var vSvcMu sync.Mutex
+
 func (s *vSvc) Query(in []*requests.Request) ([]map[string]interface{}, error) {
+	vSvcMu.Lock()
+	defer vSvcMu.Unlock()
 	if s.dead {
 		s.f.log = append(s.f.log, vSub{url: s.url})
 		return nil, fmt.Errorf("no service at %s", s.url)
